@@ -535,7 +535,15 @@ def normalise(trees: Dict[str, ast.Module], inventory: Optional[Set[str]] = None
         progress = False
         for h in helpers:
             why = None
-            if isinstance(h.node, ast.AsyncFunctionDef) or _is_generator(h.node):
+            if _is_contextmanager(h):
+                n_cm, left_cm = _inline_contextmanager(h, trees, imports)
+                if n_cm and not left_cm:
+                    _remove_def(h, trees)
+                    report.append(f"inlined context manager {h.key} into {n_cm} with-statement(s); definition dropped")
+                    progress = True
+                    continue
+                why = f"context manager: {n_cm} with-statement(s) rewritten, {left_cm} reference(s) left"
+            elif isinstance(h.node, ast.AsyncFunctionDef) or _is_generator(h.node):
                 why = "generator / coroutine"
             elif h.bad_deco:
                 why = f"decorated ({', '.join(h.bad_deco)})"
@@ -565,6 +573,107 @@ def normalise(trees: Dict[str, ast.Module], inventory: Optional[Set[str]] = None
                 report.append(f"kept unknown function {h.key}: mutually recursive with another unknown function")
             break
     return report
+
+
+def _is_contextmanager(h: Helper) -> bool:
+    return h.cls is None and h.outer is None and isinstance(h.node, ast.FunctionDef) \
+        and any(d in ("contextlib.contextmanager", "contextmanager") for d in h.bad_deco) and len(h.bad_deco) == 1
+
+
+def _cm_shape(fnode):
+    """(pre, try_node or None, before, yield value, after, post) of a generator-based context manager with exactly one
+    statement-level `yield`, either at the top level of the body or at the top level of one top-level try body."""
+    body = _body_wo_doc(fnode)
+    ys = [n for n in _walk_no_defs(fnode) if isinstance(n, (ast.Yield, ast.YieldFrom))]
+    if len(ys) != 1 or not isinstance(ys[0], ast.Yield):
+        return None
+
+    def split(stmts):
+        for i, st in enumerate(stmts):
+            if isinstance(st, ast.Expr) and st.value is ys[0]:
+                return stmts[:i], None, stmts[i + 1:]
+            if isinstance(st, ast.Assign) and st.value is ys[0]:
+                return None
+        return None
+    top = split(body)
+    if top is not None:
+        return body[:0] + top[0], None, [], ys[0].value, [], top[2]
+    for i, st in enumerate(body):
+        if isinstance(st, ast.Try):
+            inner = split(st.body)
+            if inner is not None:
+                return body[:i], st, inner[0], ys[0].value, inner[2], body[i + 1:]
+    return None
+
+
+def _inline_contextmanager(h: Helper, trees, imports) -> Tuple[int, int]:
+    shape = _cm_shape(h.node)
+    n_done = 0
+    if shape is not None and not _returns(_body_wo_doc(h.node)):
+        for rel, tree in trees.items():
+            if rel != h.rel and imports.get(rel, {}).get(h.name) != h.rel:
+                continue
+            if rel != h.rel:
+                need = _cross_module_imports(h, rel, trees)
+                if need is None:
+                    continue
+            else:
+                need = []
+            changed = False
+            for key, fnode, cls, outer in list(function_keys(rel, tree)):
+                if fnode is h.node:
+                    continue
+                for body in _bodies(fnode):
+                    for idx, st in enumerate(list(body)):
+                        if isinstance(st, ast.With) and len(st.items) == 1 and isinstance(st.items[0].context_expr, ast.Call) \
+                                and isinstance(st.items[0].context_expr.func, ast.Name) and st.items[0].context_expr.func.id == h.name:
+                            call = st.items[0].context_expr
+                            try:
+                                binding = _bind(h, call, skip_first=False)
+                            except Unsupported:
+                                continue
+                            if any(b[0].startswith("**") for b in binding):
+                                continue
+                            fn = copy.deepcopy(h.node)
+                            sh = _cm_shape(fn)
+                            pre, trynode, before, yval, after, post = sh
+                            caller_names = _all_names(fnode)
+                            stored = _stored_names(fn)
+                            mapping = {}
+                            assigns = []
+                            tag = h.name.strip("_") or "cm"
+                            for p_, v in binding:
+                                same = isinstance(v, ast.Name) and v.id == p_
+                                if same and p_ not in stored:
+                                    continue
+                                new = p_
+                                if p_ in caller_names:
+                                    new = f"{p_}__{tag}"
+                                    mapping[p_] = new
+                                assigns.append(_mk_assign([ast.Name(id=new, ctx=ast.Store())], copy.deepcopy(v), call))
+                            for n_ in sorted(stored - {b[0] for b in binding}):
+                                if n_ in caller_names:
+                                    mapping[n_] = f"{n_}__{tag}"
+                            ren = _Rename(mapping)
+                            fix = lambda stmts: [x for x in (ren.visit(s_) for s_ in stmts) if x is not None]   # noqa: E731
+                            bind_as = []
+                            if st.items[0].optional_vars is not None:
+                                val = ren.visit(yval) if yval is not None else ast.Constant(value=None)
+                                bind_as = [_mk_assign([st.items[0].optional_vars], val, st)]
+                            core = fix(before) + bind_as + list(st.body) + fix(after)
+                            if trynode is not None:
+                                t2 = ast.Try(body=core, handlers=[ren.visit(hd) for hd in trynode.handlers],
+                                             orelse=fix(trynode.orelse), finalbody=fix(trynode.finalbody))
+                                new_stmts = assigns + fix(pre) + [ast.fix_missing_locations(ast.copy_location(t2, st))] + fix(post)
+                            else:
+                                new_stmts = assigns + fix(pre) + core + fix(post)
+                            body[idx:idx + 1] = new_stmts
+                            n_done += 1
+                            changed = True
+                            break
+            if changed and need:
+                tree.body[:0] = need
+    return n_done, _references_left(h, trees, imports)
 
 
 def _remove_def(h: Helper, trees):
